@@ -10,9 +10,9 @@ CAM.tla) like every other recording.
 import os
 from . import ast as A, values as V, tlc, campaign
 
-def explore(ctx, focus="all", part=None, tier=None, emit=True, control=False, survey=False, workers=16, timeout=7200):
+def explore(ctx, focus="all", part=None, tier=None, emit=True, control=False, survey=False, faults=False, workers=16, timeout=7200):
     env = {"MC_TIER": tier or ctx.tier, "MC_FOCUS": focus, "MC_EMIT": "1" if emit else "0",
-           "MC_CONTROL": "1" if control else "0", "MC_SURVEY": "1" if survey else "0"}
+           "MC_CONTROL": "1" if control else "0", "MC_SURVEY": "1" if survey else "0", "MC_FAULTS": "1" if faults else "0"}
     if part:
         env["MC_PART"] = part
     out, stats = tlc.run_tlc("MC_CAM.tla", "MC_CAM.cfg", workers=workers, env=env, scratch=ctx.scratch, timeout=timeout)
